@@ -263,6 +263,8 @@ func TestCheck(t *testing.T) {
 	overlapping(r)
 	manyDevices(r)
 	grpcOverlap(r)
+	grpcConcurrentUploads(r)
+	recordedTime(r)
 	stress(r)
 	linearizable(r)
 
@@ -277,6 +279,8 @@ func TestCheck(t *testing.T) {
 	r.Require("grpc_streams_ok_without_response", 10)
 	r.Require("many_devices_cases", 32)
 	r.Require("grpc_overlapping_refreshes", 20)
+	r.Require("grpc_concurrent_upload_rounds", 3)
+	r.Require("recorded_time_queries_after_an_idle_gap_on_a_persistent_connection", 9)
 }
 
 func scripted(r *vkit.Run) {
